@@ -75,6 +75,37 @@ func (j *binJudge) judgeMarshal(d D, origin string, intended ...ref.Num) {
 	// independent decode of the bytes
 	dec := ref.Decode(bitsFromBytes(out))
 	detail := fmt.Sprintf("bytes=%x origin=%s", out, origin)
+	if n.Class != ref.Finite {
+		// the library's own view of a special value (its text) must be the class and sign the bytes denote
+		var text string
+		_, pans := try(func() { text = d.String() })
+		want := "NaN"
+		if n.Class == ref.Inf {
+			want = "+Inf"
+			if n.Neg {
+				want = "-Inf"
+			}
+		}
+		if pans || text != want {
+			j.sh.Violate(mk("MarshalBinary"), "observer", "d.String() = "+want+" for bytes that denote it", fmt.Sprintf("panic=%v %q", pans, clipS(text, 60)), detail)
+			return
+		}
+		var isNaN, isInf, isInfSigned, isInfOther bool
+		_, panp := try(func() {
+			isNaN, isInf = d.IsNaN(), d.IsInf(0)
+			sg := 1
+			if n.Neg {
+				sg = -1
+			}
+			isInfSigned, isInfOther = d.IsInf(sg), d.IsInf(-sg)
+		})
+		wantInf := n.Class == ref.Inf
+		if panp || isNaN != (n.Class == ref.NaN) || isInf != wantInf || isInfSigned != wantInf || isInfOther {
+			j.sh.Violate(mk("MarshalBinary"), "observer", "IsNaN/IsInf agreeing with the class and sign the bytes denote ("+want+")",
+				fmt.Sprintf("panic=%v IsNaN=%v IsInf(0)=%v IsInf(sign)=%v IsInf(-sign)=%v", panp, isNaN, isInf, isInfSigned, isInfOther), detail)
+			return
+		}
+	}
 	switch {
 	case n.Class == ref.NaN:
 		if dec.Class != ref.NaN || out[0]&0x7c != 0x7c {
